@@ -19,6 +19,7 @@
 //
 //	new <chunks> <sibHot> <sibCold>   fresh world: file F in hot (registered hot) + optional siblings
 //	mig|rec|scan|cycle <oracle>        MigrateTier(hot,cold) | ReconcileOrphanedFiles | ScanAndRegisterFiles | RunMigrationCycle
+//	age                                > 48 h pass without tiering activity (migrated_at moved back 49 h)
 //	obs                                bytes on disk per tier, tier_files row, open tier_migrations rows, and what the
 //	                                   real query path returns: FROM-expression of the real QueryHandler
 //	                                   (buildMultiTierReadParquet) executed by the real DuckDB
@@ -583,6 +584,13 @@ func (w *world) runOp(kind, orc string) (string, []string) {
 		case "rec":
 			f, d, e := w.mgr.VerifMigrator().ReconcileOrphanedFiles(ctx)
 			return fmt.Sprintf("rec=%d/%d/%d", f, d, e)
+		case "age":
+			// more than the 48 h reconcile window passes: the only clock the tiering code reads for the
+			// window is SQLite's CURRENT_TIMESTAMP stored in migrated_at, so ageing = moving it back 49 h
+			if _, err := w.mdb.Exec("UPDATE tier_files SET migrated_at = datetime('now', '-49 hours') WHERE migrated_at IS NOT NULL AND database = ?", dbName); err != nil {
+				return "age=err"
+			}
+			return "ok"
 		case "scan":
 			if _, err := w.mgr.ScanAndRegisterFiles(ctx); err != nil {
 				return "scan=err"
@@ -609,6 +617,7 @@ type obsv struct {
 	part       string
 	tier       string
 	pend       int
+	recent     int
 	globs      string
 	vis        string
 	visN       int
@@ -661,6 +670,7 @@ func (w *world) observe() obsv {
 		o.tier = string(fm.Tier)
 	}
 	must(w.mdb.QueryRow("SELECT count(*) FROM tier_migrations WHERE file_path = ? AND completed_at IS NULL", fRel).Scan(&o.pend))
+	o.recent = w.recent(o.tier)
 
 	// the real query path
 	o.expr = api.VerifTieredFromExpr(hl, om, dbName, meas)
@@ -718,7 +728,7 @@ func (w *world) observe() obsv {
 }
 
 func (o obsv) line() string {
-	return fmt.Sprintf("h=%s c=%s p=%s t=%s pend=%d globs=%s vis=%s", o.hot, o.cold, o.part, o.tier, o.pend, o.globs, o.vis)
+	return fmt.Sprintf("h=%s c=%s p=%s t=%s pend=%d r=%d globs=%s vis=%s", o.hot, o.cold, o.part, o.tier, o.pend, o.recent, o.globs, o.vis)
 }
 
 // ---------------------------------------------------------------- histories
@@ -776,6 +786,12 @@ func (w *world) runHistory(ti int, sibHot, sibCold bool, ops []opn) {
 			case last.kind == "cycle" && lastRes == "cycle=ok":
 				fin = "cycle"
 			}
+			if fin == "reconcile" && o.tier == "cold" && w.outsideWindow() {
+				// outside the 48 h window the reconciliation does not enumerate the file (stated assumption);
+				// the clause is checked on the next clean CYCLE instead, whose scan + re-migration must remove it
+				c.Tag("stale-hot-orphan-after-reconcile")
+				fin = ""
+			}
 			if fin != "" {
 				class := "other"
 				switch {
@@ -797,6 +813,12 @@ func (w *world) runHistory(ti int, sibHot, sibCold bool, ops []opn) {
 	for i := range ops {
 		op := ops[i]
 		res, trace := w.runOp(op.kind, op.orc)
+		if op.kind == "age" {
+			emit("age", res+" "+w.quickState())
+			c.Tag("res:age")
+			check(&ops[i], res)
+			continue
+		}
 		emit(op.kind+" "+op.orc, res+" "+w.quickState())
 		for _, t := range trace {
 			if !strings.HasSuffix(t, ":o") {
@@ -831,7 +853,29 @@ func (w *world) quickState() string {
 	}
 	var pend int
 	must(w.mdb.QueryRow("SELECT count(*) FROM tier_migrations WHERE file_path = ? AND completed_at IS NULL", fRel).Scan(&pend))
-	return fmt.Sprintf("h=%s c=%s p=%s t=%s pend=%d", hot, cold, part, tier, pend)
+	return fmt.Sprintf("h=%s c=%s p=%s t=%s pend=%d r=%d", hot, cold, part, tier, pend, w.recent(tier))
+}
+
+// outsideWindow: independent of the code under test (the monitors must not trust
+// GetRecentlyMigratedFiles): is the row's migrated_at NULL or older than 48 h by SQLite's own clock?
+func (w *world) outsideWindow() bool {
+	var in sql.NullBool
+	if err := w.mdb.QueryRow("SELECT migrated_at >= datetime('now', '-48 hours') FROM tier_files WHERE path = ?", fRel).Scan(&in); err != nil {
+		return false
+	}
+	return !in.Valid || !in.Bool
+}
+
+// recent: is the file inside the working set the REAL GetRecentlyMigratedFiles(tier, 48 h) returns?
+func (w *world) recent(tier string) int {
+	fs, err := w.mgr.GetMetadata().GetRecentlyMigratedFiles(context.Background(), tiering.TierFromString(tier), 48*time.Hour)
+	must(err)
+	for _, f := range fs {
+		if f.Path == fRel {
+			return 1
+		}
+	}
+	return 0
 }
 
 // ---------------------------------------------------------------- main
@@ -953,6 +997,35 @@ func main() {
 			}
 		}
 	}
+	// (4b) ageing: after every crash point / step failure more than the 48 h reconcile window passes
+	//      without a cycle (migrated_at leaves GetRecentlyMigratedFiles' working set), then the next
+	//      cycle / reconcile / scan+retry runs.
+	{
+		aged := [][]opn{
+			{{"age", ""}, {"cycle", "-"}},
+			{{"age", ""}, {"rec", "-"}, {"cycle", "-"}},
+			{{"age", ""}, {"scan", "-"}, {"mig", "-"}, {"rec", "-"}},
+			{{"rec", "-"}, {"age", ""}, {"mig", "-"}, {"rec", "-"}, {"age", ""}, {"cycle", "-"}},
+		}
+		for ti, t := range w.tmpls {
+			for k := 0; k < nEv(t); k++ {
+				for _, x := range []byte{'c', 'f'} {
+					for fi, fo := range aged {
+						for si, sb := range sibs {
+							gi++
+							if !c.Thorough() && ti >= 1 && (si+fi+k)%4 != int(c.Seed%4) {
+								continue
+							}
+							if !c.Thorough() && ti >= 2 && k >= 2 && k < t.chunks {
+								continue
+							}
+							w.runHistory(ti, sb[0], sb[1], cat([]opn{{"mig", single(k, x)}}, fo...))
+						}
+					}
+				}
+			}
+		}
+	}
 	// (5) random histories with random oracles
 	n := c.N
 	if n == 0 {
@@ -970,7 +1043,11 @@ func main() {
 		sb := vh.Pick(r, sibs)
 		var ops []opn
 		for j, k := 0, r.Range(2, 7); j < k; j++ {
-			kind := vh.Pick(r, []string{"mig", "mig", "mig", "rec", "rec", "scan", "cycle"})
+			kind := vh.Pick(r, []string{"mig", "mig", "mig", "rec", "rec", "scan", "cycle", "age"})
+			if kind == "age" {
+				ops = append(ops, opn{"age", ""})
+				continue
+			}
 			L := r.Intn(nEv(t) + 4)
 			o := make([]byte, L)
 			for q := range o {
@@ -1000,5 +1077,5 @@ func main() {
 	c.Extra["time"] = fmt.Sprintf("newCase=%v ops=%v observe=%v (duckdb=%v)", tNew.Round(time.Millisecond), tOp.Round(time.Millisecond), tObs.Round(time.Millisecond), tDuck.Round(time.Millisecond))
 	c.Finish("cases = (file size, sibling tiers of the measurement, history of mig/rec/scan/cycle ops each with a fault oracle) — " +
 		"every crash point, every single step failure and every source-read failure position (after 0..n-1 chunks) of MigrateFile for each file size × follow-up (reconcile, retry, reconcile+retry, full cycle, scan+reconcile), " +
-		"all two-fault oracles for the small file, faults inside the follow-up, and random histories; non-trivial = at least one injected failure/crash was consumed; distinct = distinct op text")
+		"ageing past the 48 h reconcile window after every crash point / step failure followed by cycle / reconcile / scan+retry, all two-fault oracles for the small file, faults inside the follow-up, and random histories; non-trivial = at least one injected failure/crash was consumed; distinct = distinct op text")
 }
